@@ -38,7 +38,7 @@ var keyKindsB = []keyKindB{
 	{"arr3i32", "[3]int32", "return [3]int32{int32(ki), int32(ki * 3), int32(-ki)}"},
 	{"struct", "struct {\n\tA int32\n\tS string\n\tB int8\n}", "var k K_struct\n\tk.A, k.S, k.B = int32(ki), strKey(\"s\", ki), int8(ki>>3)\n\treturn k"},
 	{"structf", "struct {\n\tF float64\n\tI int8\n}", "var k K_structf\n\tk.F, k.I = f64Of(ki%6), int8(ki/6)\n\tif ki%6 == 5 {\n\t\tk.F = float64(ki)\n\t}\n\treturn k"},
-	{"iface", "interface{}", "switch ki % 5 {\n\tcase 0:\n\t\treturn int64(ki) * 31\n\tcase 1:\n\t\treturn strKey(\"e\", ki)\n\tcase 2:\n\t\tswitch ki {\n\t\tcase 2:\n\t\t\treturn f64Of(2)\n\t\tcase 7:\n\t\t\treturn float64(0)\n\t\tcase 12:\n\t\t\treturn f64Of(1)\n\t\t}\n\t\treturn float64(ki) + 0.25\n\tcase 3:\n\t\treturn [2]int32{int32(ki), int32(-ki)}\n\t}\n\treturn &cells[ki%4096]"},
+	{"iface", "interface{}", "switch ki % 5 {\n\tcase 0:\n\t\treturn int64(ki) * 31\n\tcase 1:\n\t\treturn strKey(\"e\", ki)\n\tcase 2:\n\t\tswitch ki {\n\t\tcase 2:\n\t\t\treturn f64Of(2)\n\t\tcase 7:\n\t\t\treturn float64(0)\n\t\tcase 12:\n\t\t\treturn f64Of(1)\n\t\t}\n\t\treturn float64(ki) + 0.25\n\tcase 3:\n\t\treturn [2]int32{int32(ki), int32(-ki)}\n\t}\n\tif ki == 9 {\n\t\treturn (*int64)(nil) // a typed nil pointer\n\t}\n\treturn &cells[ki%4096]"},
 	{"big", "[20]int64", "var k [20]int64\n\tk[0], k[19] = int64(ki), int64(-ki)\n\treturn k"},
 	{"ptr", "*int64", "return &cells[ki%4096]"},
 	{"padded", "struct {\n\tA int8\n\tB int64\n\tC int16\n}", "var k K_padded\n\tk.A, k.B, k.C = int8(ki), int64(ki)*77, int16(ki>>2)\n\treturn k"},
@@ -50,6 +50,8 @@ var keyKindsB = []keyKindB{
 	{"named", "myInt", "return myInt(ki) - 600"},
 	{"ifacetag", "interface{}", "switch ki % 4 {\n\tcase 0:\n\t\treturn struct {\n\t\t\tA int \"t:\\\"1\\\"\"\n\t\t}{A: ki / 4}\n\tcase 1:\n\t\treturn struct {\n\t\t\tA int \"t:\\\"2\\\"\"\n\t\t}{A: ki / 4}\n\tcase 2:\n\t\treturn struct{ baseA }{baseA{ki / 4}}\n\t}\n\treturn struct{ aliasA }{aliasA{ki / 4}}"}, // unnamed struct types that differ only in a tag or in the name of an embedded alias field
 	{"arrzs", "[2]zsTail", "return [2]zsTail{{A: int64(ki)}, {A: int64(-ki)}}"}, // array of structs that end in a zero-size field
+	{"arr1f64", "[1]float64", "return [1]float64{f64Of(ki)}"},                                                                                                 // small arrays of floats: +0 == -0, NaN != NaN
+	{"arr2f32", "[2]float32", "a := float32(f64Of(ki % 6))\n\tif ki%6 == 5 {\n\t\ta = float32(ki)\n\t}\n\treturn [2]float32{a, float32(ki / 6)}"},
 	{"k128", "[16]int64", "var k [16]int64\n\tk[0], k[15] = int64(ki), int64(-ki)\n\treturn k"}, // exactly the inline limit
 }
 
@@ -342,6 +344,11 @@ func exec_@C(cur int, pool int) int {
 			}
 		case 11, 12, 13, 15:
 			bad_@C(op, a)
+		case 17:
+			// the objects that pointer keys point to change; the keys do not
+			cells[a%4096] += 7
+			cells[(a+1)%4096]--
+			println("K", opi)
 		case 14:
 			setzero_@C(a)
 		case 16:
